@@ -54,7 +54,9 @@ var (
 	crashRe   = regexp.MustCompile(`(?m)^(panic:|goroutine \d+ \[|fatal error:)`)
 )
 
-func crashed(r toolRun) bool { return r.Exit == 2 && crashRe.MatchString(r.Stderr) || crashRe.MatchString(r.Stderr) }
+func crashed(r toolRun) bool {
+	return r.Exit == 2 && crashRe.MatchString(r.Stderr) || crashRe.MatchString(r.Stderr)
+}
 
 // scratch module for tool inputs
 func newScratch(work, name string) string {
@@ -381,9 +383,9 @@ func checkC13(c *ctx) {
 		"distinct_nontrivial": len(distinct),
 		"rule": "Engine T: input packages = Engine G corpus programs (all spellings and value-type kinds), static multi-directive files with arbitrary surrounding code (also *_test.go), and hazard templates (aliased/colliding imports of time, context, cff, runtime/debug; user identifiers named like generated ones; identifiers shadowing packages the generated code uses; types from unimported packages; unexported foreign types; nested directives; parenthesised and non-constant option arguments; unsupported signatures), " +
 			"each run through the cff binary built from the working tree in base/source-map x with/without -auto-instrument, one process per package. Oracle: no Go panic; non-zero exit needs a positioned diagnostic; exit 0 needs every output to parse, the package to type-check without the cff tag (go vet), and no call into the directive set (read from /repo/internal/directives.go) left in the output. distinct = (kind, feature set, mode); every case is non-trivial (a directive is present)",
-		"samples":            samples,
-		"packages_by_kind":   feats,
-		"outcomes":           outcomes,
+		"samples":                           samples,
+		"packages_by_kind":                  feats,
+		"outcomes":                          outcomes,
 		"inputs_discarded_not_type_correct": discarded,
 	}
 	writeEvidence(c, cov, []string{"inputs that do not type-check under the cff tag are generator bugs and are discarded (counted)", "residual-directive scan resolves the cff package through the file's import names"})
